@@ -643,13 +643,19 @@ where
     }
 
     fn at_sim_end(rt: &mut Runtime<Sim<A>>) -> Result<(), RuntimeError> {
-        A::at_sim_end(rt)?;
+        // An error of the inner application is reported, but it does not
+        // take the tear-down away from the modules.
+        let inner = A::at_sim_end(rt);
 
         let mut error = RuntimeError::empty();
         mem::swap(&mut error, &mut rt.app.error);
 
         if !rt.app.error.is_empty() {
             return Err(error);
+        }
+
+        if let Err(e) = inner {
+            error.merge(e);
         }
 
         let mods = rt
